@@ -19,7 +19,10 @@ if TYPE_CHECKING:
     from jax2onnx.converter.ir_context import IRContext
 
 
-CacheKey = Union[str, int]
+# Cache keys are namespaced by the kind of node they describe: the printed forms of
+# different kinds can coincide (``str((factor, power))`` and ``str((term, coeff))`` both
+# give ``(b, 2)`` for ``b^2`` and ``2*b``), so a bare string is not a safe key.
+CacheKey = Union[int, tuple[str, str]]
 OperandsTuple = tuple[DimExprLike | int, ...]
 TermWithMultiplier: TypeAlias = DimTermWithCoeff
 
@@ -30,8 +33,9 @@ class LowerDimExpr:
         self.compute_cache: Dict[CacheKey, ir.Value] = {}
 
     def _get_dim_value(self, name: str) -> ir.Value:
-        if name in self.compute_cache:
-            return self.compute_cache[name]
+        key = ("dim", name)
+        if key in self.compute_cache:
+            return self.compute_cache[key]
 
         origin = self.ctx.get_symbolic_dim_origin(name)
         if origin is None:
@@ -53,7 +57,7 @@ class LowerDimExpr:
         )  # this is defined by ONNX specs to be INT64 for Shape
         _ensure_value_metadata(self.ctx, shp)
 
-        self.compute_cache[name] = shp
+        self.compute_cache[key] = shp
         return shp
 
     def _get_scalar(self, scalar: int) -> ir.Value:
@@ -110,7 +114,7 @@ class LowerDimExpr:
         return result
 
     def _lower_op(self, name: str, operands: OperandsTuple) -> ir.Value:
-        key = f"{name}#{operands}"
+        key = ("op", f"{name}#{operands}")
         if key in self.compute_cache:
             return self.compute_cache[key]
 
@@ -121,8 +125,9 @@ class LowerDimExpr:
         return result_value
 
     def _lower_factor(self, factor: DimFactorWithPower) -> ir.Value:
-        if str(factor) in self.compute_cache:
-            return self.compute_cache[str(factor)]
+        key = ("factor", str(factor))
+        if key in self.compute_cache:
+            return self.compute_cache[key]
 
         if factor[0].operation is None:
             var_name = factor[0].var
@@ -149,12 +154,13 @@ class LowerDimExpr:
             )
             self._set_metadata(result_value)
 
-        self.compute_cache[str(factor)] = result_value
+        self.compute_cache[key] = result_value
         return result_value
 
     def _lower_term(self, term: DimTermLike) -> ir.Value:
-        if str(term) in self.compute_cache:
-            return self.compute_cache[str(term)]
+        key = ("term", str(term))
+        if key in self.compute_cache:
+            return self.compute_cache[key]
 
         if len(term._factors) == 0:
             result_value = self._get_scalar(1)
@@ -172,12 +178,13 @@ class LowerDimExpr:
                 )
                 self._set_metadata(result_value)
 
-        self.compute_cache[str(term)] = result_value
+        self.compute_cache[key] = result_value
         return result_value
 
     def _lower_term_with_mult(self, term: DimTermWithCoeff) -> ir.Value:
-        if str(term) in self.compute_cache:
-            return self.compute_cache[str(term)]
+        key = ("term_with_coeff", str(term))
+        if key in self.compute_cache:
+            return self.compute_cache[key]
 
         if term[0].is_constant and str(term[0]) == "":
             result_value = self._get_scalar(term[1])
@@ -195,15 +202,16 @@ class LowerDimExpr:
                 )
                 self._set_metadata(result_value)
 
-        self.compute_cache[str(term)] = result_value
+        self.compute_cache[key] = result_value
         return result_value
 
     def _lower_expr(self, expr: DimExprLike | int) -> ir.Value:
         if isinstance(expr, int):
             return self._get_scalar(expr)
 
-        if str(expr) in self.compute_cache:
-            return self.compute_cache[str(expr)]
+        key = ("expr", str(expr))
+        if key in self.compute_cache:
+            return self.compute_cache[key]
 
         terms: tuple[TermWithMultiplier, ...] = expr._sorted_terms
         result_value = self._lower_term_with_mult(terms[0])
@@ -219,7 +227,7 @@ class LowerDimExpr:
             )
             self._set_metadata(result_value)
 
-        self.compute_cache[str(expr)] = result_value
+        self.compute_cache[key] = result_value
         return result_value
 
     def __call__(self, exprs: list[DimExprLike | int | ir.Value]) -> ir.Value:
